@@ -446,6 +446,9 @@ partial def exec (x : XState) (args : List String) : XState × String :=
     let target := match rest with | t :: _ => t.toNat! | [] => 0
     let (x', r) := stepOp x (.reopen x.cfgIv target)
     ({ x' with opened := true, fastOpen := x.cfgFast, holds := [] }, r)
+  | ["opennl"] =>
+    -- a new `MutableTree` on the same store, not loaded: the state a failed load leaves as well
+    ({ x with vs := x.vs.fresh treeContent x.cfgIv, opened := true, fastOpen := x.cfgFast, holds := [] }, "ok")
   | ["close"] => ({ x with opened := false, holds := [] }, "ok")
   | ["dump"] => (x, "?")
   | ["encodedb", n] =>
